@@ -3092,6 +3092,14 @@ class Set(Collection):
                 if not is_reverse_call:
                     for undo_func in reversed(undo_funcs): undo_func()
                 raise
+        if is_reverse_call:  # the caller may still fail: the bookkeeping below needs an undo as well
+            copy = lambda x: None if x is None else set(x)
+            saved = copy(setdata), setdata.count, copy(setdata.added), copy(setdata.removed), obj in cache.modified_collections[attr]
+            def undo_func():
+                setdata.clear(); setdata.update(saved[0])
+                setdata.count, setdata.added, setdata.removed = saved[1:4]
+                if not saved[4]: cache.modified_collections[attr].discard(obj)
+            undo_funcs.append(undo_func)
         setdata.clear()
         setdata |= new_items
         if setdata.count is not None: setdata.count = len(new_items)
